@@ -33,7 +33,8 @@ type Kind struct {
 	Group, Version, Resource, Kind string
 	Namespaced                     bool
 	StatusSub                      bool
-	ScaleSub                       bool // discovery also lists <resource>/scale, after <resource>/status as apiextensions does (not served)
+	StoreKey                       string // non-empty: objects of this kind live in a store of their own (default: one store per group+resource, shared by all served versions)
+	ScaleSub                       bool   // discovery also lists <resource>/scale, after <resource>/status as apiextensions does (not served)
 }
 
 func (k *Kind) APIVersion() string {
@@ -199,10 +200,18 @@ func (s *Server) Discovery() []*metav1.APIResourceList {
 }
 
 func objKey(k *Kind, ns, name string) string {
-	return k.Group + "|" + k.Resource + "|" + ns + "|" + name
+	return resKey(k) + "|" + ns + "|" + name
 }
 
-func resKey(k *Kind) string { return k.Group + "|" + k.Resource }
+// ResKey is the key under which the request counters (Lists, OpenWatches, WatchOpens) account a kind.
+func ResKey(k *Kind) string { return resKey(k) }
+
+func resKey(k *Kind) string {
+	if k.StoreKey != "" {
+		return k.StoreKey
+	}
+	return k.Group + "|" + k.Resource
+}
 
 // ---------------------------------------------------------------------------------------------
 // Harness-side access (not logged as controller traffic).
